@@ -52,6 +52,9 @@ mod utils;
 #[cfg(feature = "packet_capture")]
 pub mod capture;
 
+#[cfg(gamedig_verif)]
+pub mod verif_hook;
+
 pub use errors::*;
 #[cfg(feature = "games")]
 pub use games::*;
